@@ -204,7 +204,7 @@ func loadKnown() {
 	knownMap = map[string]knownEntry{}
 	p := os.Getenv("VERIF_KNOWN")
 	if p == "" {
-		p = "/verif/known_findings.jsonl"
+		p = "/verif/known_findings.txt"
 	}
 	f, err := os.Open(p)
 	if err != nil {
@@ -215,11 +215,23 @@ func loadKnown() {
 	sc.Buffer(make([]byte, 1<<20), 1<<20)
 	for sc.Scan() {
 		line := strings.TrimSpace(sc.Text())
-		if line == "" || strings.HasPrefix(line, "#") {
+		// known: property=<id> key=<key> <what>
+		if !strings.HasPrefix(line, "known:") {
 			continue
 		}
+		f := strings.Fields(strings.TrimPrefix(line, "known:"))
 		var e knownEntry
-		if json.Unmarshal([]byte(line), &e) == nil && e.Key != "" {
+		e.Status = "known"
+		for i, w := range f {
+			if strings.HasPrefix(w, "property=") {
+				e.Property = strings.TrimPrefix(w, "property=")
+			} else if strings.HasPrefix(w, "key=") {
+				e.Key = strings.TrimPrefix(w, "key=")
+				e.What = strings.Join(f[i+1:], " ")
+				break
+			}
+		}
+		if e.Key != "" {
 			knownMap[e.Key] = e
 		}
 	}
